@@ -62,7 +62,8 @@ def check(run):
                     continue
                 with w.reader() as rd:
                     idx = cworld.abstract_index(rd, adocs)
-                    obs = cworld.dump(rd, idx, w.schema, rng=rng, maxterms=12 if quick else 30, plan=plan)
+                    obs = cworld.dump(rd, idx, w.schema, rng=rng, maxterms=12 if quick else 30, plan=plan,
+                                      groups=w.groups)
                     run.count(len(obs))
                     if not dels:
                         # scores are layout independent when nothing is deleted
